@@ -29,6 +29,90 @@ def constant_arity(ds):
     return all(sum(1 for d in ds if d > k) in (n, 1, 0) for k in range(max(ds)))
 
 
+def make(mac, opts, jn, cmp, ds, rich, tag="", anyof=None, **kw):
+    is_try = mac.startswith("try")
+    p = fp.build(mac, ds, flavour="Res" if is_try else None, rich=rich, **kw)
+    p.options = [opts]
+    d = dsl.program_dsl(p)
+    anyof = (p.is_async and p.is_try) if anyof is None else anyof
+    r = dsl.program_ref(p, anyof=anyof, joiner=jn)
+    fmt = '\nformat!("{:?}", x)'
+    if anyof:
+        rb = "futures::executor::block_on(%s)" % r
+    elif p.is_async:
+        rb = "let x = futures::executor::block_on(%s);%s" % (r, fmt)
+    else:
+        rb = "let x = %s;%s" % (r, fmt)
+    if p.is_async and p.is_spawn:
+        mb = "let x = trt().block_on(%s);%s" % (d, fmt)
+    elif p.is_async:
+        mb = "let x = futures::executor::block_on(%s);%s" % (d, fmt)
+    else:
+        mb = "let x = %s;%s" % (d, fmt)
+    sub = fp.fail_slots(ds) if (is_try and sum(ds) <= 6) else ()
+    rows = [[0]] if is_try else fp.offset_rows()
+    pid = "%s%s/%s/%s" % (tag, mac, opts.replace(" ", "+"), fp.pname(ds))
+    return Prog(pid, rb, mb, rows, cmp, meta={"macro": mac, "dsl": d, "ref": r}, sub=sub)
+
+
+def capture_programs(tier):
+    """C11 under options: capture-rich depth profiles (a block capture in every step of every branch) behind a custom joiner,
+    with eager and with lazy (closure) branches; the lazy sequential joiner runs the branches in REVERSE order, so a capture
+    that is evaluated inside its branch closure (not hoisted before the step) shows up after another branch's expressions"""
+    progs = []
+    for ds in fp.profiles(3, 3):
+        n = len(ds)
+        if n < 2 or max(ds) < 2:
+            continue
+        variants = [
+            ("join", "lazy_branches(true) custom_joiner(jl!)", {"when": "before", "reverse": True}, "Full"),
+            ("try_join", "custom_joiner(jl!) lazy_branches(true)", {"when": "before", "reverse": True}, "Full"),
+            ("join", "custom_joiner(jm!)", {"when": "before"}, "Full"),
+            ("try_join", "custom_joiner(jm!)", {"when": "before"}, "Full"),
+            ("join_spawn", "custom_joiner(jm!)", {"when": "before"}, "Proj"),
+            ("join_async", "lazy_branches(true) custom_joiner(jla!)", {"when": "before"}, "Proj"),
+            ("try_join_async", "custom_joiner(jlta!) lazy_branches(true)", {"when": "before"}, "TryAsync"),
+            ("join_async_spawn", "custom_joiner(jma!)", {"when": "before"}, "Proj"),
+        ]
+        for mac, opts, jn, cmp in variants:
+            if tier == "quick" and (sum(ds) > 6 or ("async" in mac and n == 3)):
+                continue
+            progs.append(make(mac, opts, jn, cmp, ds, rich=True, tag="cap/"))
+    return progs
+
+
+def handler_programs(tier):
+    """C13 under options: every handler kind behind each option that changes how a step is joined or transposed; in the async
+    try macros transpose_results(true) (the only way to carry Option/Result-valued futures) switches to the sequential
+    semantics: the step is joined with a plain join, transposed by the macro, and `map` must still see the unwrapped values"""
+    progs = []
+    for ds in list(fp.profiles(3, 2)) + [(3,)]:
+        n = len(ds)
+        variants = []
+        if n == 1:
+            variants += [(m, "transpose_results(true)", None, "Proj", False) for m in ("try_join_async", "try_join_async_spawn", "try_async_spawn", "try_join", "try_join_spawn")]
+            variants += [(m, "lazy_branches(false)", None, "TryAsync" if m == "try_join_async" else "Proj", None) for m in ("join", "try_join", "join_async", "try_join_async")]
+        else:
+            variants += [
+                ("try_join_async", "transpose_results(true) custom_joiner(jma!)", {"when": "before"}, "Proj", False),
+                ("try_join_async_spawn", "custom_joiner(jma!) transpose_results(true)", {"when": "before"}, "Proj", False),
+                ("join", "lazy_branches(true) custom_joiner(jl!)", {"when": "before", "reverse": True}, "Full", None),
+                ("try_join", "custom_joiner(jl!) lazy_branches(true)", {"when": "before", "reverse": True}, "Full", None),
+                ("try_join", "custom_joiner(jm!) transpose_results(true)", {"when": "before"}, "Full", None),
+                ("join_spawn", "custom_joiner(jm!)", {"when": "before"}, "Proj", None),
+                ("try_join_spawn", "custom_joiner(jm!)", {"when": "before"}, "Proj", None),
+                ("join_async", "lazy_branches(true) custom_joiner(jla!)", {"when": "before"}, "Proj", None),
+                ("try_join_async", "custom_joiner(jlta!) lazy_branches(true)", {"when": "before"}, "TryAsync", None),
+                ("join_async_spawn", "custom_joiner(jma!)", {"when": "before"}, "Proj", None),
+            ]
+        for mac, opts, jn, cmp, anyof in variants:
+            is_try = "try" in mac
+            for hk in (("map", "and_then") if is_try else ("then",)):
+                for hpos in sorted({0, n}):
+                    progs.append(make(mac, opts, jn, cmp, ds, rich=False, tag="h/%s@%d/" % (hk, hpos), anyof=anyof, handler=hk, hpos=hpos))
+    return progs
+
+
 def programs(tier):
     progs = []
     for ds in fp.profiles(3, 3):
@@ -57,29 +141,7 @@ def programs(tier):
         for mac, opts, jn, cmp in variants:
             if "async" in mac and tier == "quick" and sum(ds) > 6:
                 continue
-            is_try = mac.startswith("try")
-            p = fp.build(mac, ds, flavour="Res" if is_try else None, rich=(n <= 2 and cmp == "Full"))
-            p.options = [opts]
-            d = dsl.program_dsl(p)
-            anyof = p.is_async and p.is_try
-            r = dsl.program_ref(p, anyof=anyof, joiner=jn)
-            fmt = '\nformat!("{:?}", x)'
-            if anyof:
-                rb = "futures::executor::block_on(%s)" % r
-            elif p.is_async:
-                rb = "let x = futures::executor::block_on(%s);%s" % (r, fmt)
-            else:
-                rb = "let x = %s;%s" % (r, fmt)
-            if p.is_async and p.is_spawn:
-                mb = "let x = trt().block_on(%s);%s" % (d, fmt)
-            elif p.is_async:
-                mb = "let x = futures::executor::block_on(%s);%s" % (d, fmt)
-            else:
-                mb = "let x = %s;%s" % (d, fmt)
-            sub = fp.fail_slots(ds) if (is_try and sum(ds) <= 6) else ()
-            rows = [[0]] if is_try else fp.offset_rows()
-            pid = "%s/%s/%s" % (mac, opts.replace(" ", "+"), fp.pname(ds))
-            progs.append(Prog(pid, rb, mb, rows, cmp, meta={"macro": mac, "dsl": d, "ref": r}, sub=sub))
+            progs.append(make(mac, opts, jn, cmp, ds, rich=(n <= 2 and cmp == "Full")))
     return progs
 
 
@@ -97,6 +159,8 @@ macro_rules! jt {
     }}
 }
 pub static JT_CALLS: std::sync::atomic::AtomicUsize = std::sync::atomic::AtomicUsize::new(0);
+// joiner that leaves every branch value wrapped: the step result is Ok(tuple of the branches' Results)
+macro_rules! jk { ($($x:expr),*) => {{ ev("j.x.a", &[$(stringify!($x)),*].len()); Ok::<_, i32>(($($x),*)) }} }
 '''
 
 
@@ -139,6 +203,48 @@ def transpose_programs():
                 mb = "JT_CALLS.store(0, std::sync::atomic::Ordering::SeqCst);\nlet x = %s;\nformat!(\"{:?}\", x)" % d
                 slots = [fp.slot(b, k) for b in range(n) for k in range(depth)] + [40 + k for k in range(depth)]
                 progs.append(Prog("%s/transpose/%d/%d" % (mac, n, depth), rb, mb, [[0]], "Proj", meta={"macro": mac, "dsl": d, "ref": r}, sub=slots if len(slots) <= 11 else slots[:5] + slots[-depth:]))
+    progs += transpose_single_programs()
+    return progs
+
+
+def transpose_single_programs():
+    """steps with ONE active branch under transpose_results(false): nothing is joined, the branch's own Result is the step result
+    and the next step continues with its unwrapped payload (a) single branch of depth 2/3, with and without further options,
+    (b) depths (1, 3) behind a joiner that leaves the branch values wrapped: step 0 is joined once, steps 1 and 2 are not"""
+    progs = []
+    fmt = '\nformat!("{:?}", x)'
+    for mac in ("try_join", "try_join_spawn"):
+        for depth in (2, 3):
+            for oi, opts in enumerate(("transpose_results(false)", "lazy_branches(false) transpose_results(false)", "transpose_results(false) custom_joiner(jk!)")):
+                s = "st_r(%d, %d, 5)" % (fp.slot(0, 0), fp.payload(0, 0))
+                lines = ["let v = match st_r(%d, %d, 5) { Ok(v) => v, Err(e) => break 'r Err(e) };" % (fp.slot(0, 0), fp.payload(0, 0))]
+                for k in range(1, depth):
+                    f = "|v: i32| { ev(\"0.%d.f\", &v); st_r(%d, %d, v + 1) }" % (k, fp.slot(0, k), fp.payload(0, k))
+                    s += " ~-> " + f
+                    lines.append("let v = match (%s)(v) { Ok(v) => v, Err(e) => break 'r Err(e) };" % f)
+                lines.append("Ok::<i32, i32>(v)")
+                d = "%s! { %s %s }" % (mac, opts, s)
+                r = "'r: {\n    %s\n}" % "\n    ".join(lines)
+                slots = [fp.slot(0, k) for k in range(depth)]
+                progs.append(Prog("%s/transpose1/%d/%d" % (mac, depth, oi), "let x = %s;%s" % (r, fmt), "let x = %s;%s" % (d, fmt), [[0]], "Proj", meta={"macro": mac, "dsl": d, "ref": r}, sub=slots))
+        # (b) depths (1, 3); the thread-spawning joiner receives JoinHandles, so only the sequential macro
+        if mac != "try_join":
+            continue
+        f1 = "|v: i32| { ev(\"1.1.f\", &v); st_r(%d, %d, v + 1) }" % (fp.slot(1, 1), fp.payload(1, 1))
+        f2 = "|v: i32| { ev(\"1.2.f\", &v); st_r(%d, %d, v + 1) }" % (fp.slot(1, 2), fp.payload(1, 2))
+        a0 = "st_r(%d, %d, 0)" % (fp.slot(0, 0), fp.payload(0, 0))
+        b0 = "st_r(%d, %d, 100)" % (fp.slot(1, 0), fp.payload(1, 0))
+        d = "%s! { custom_joiner(jk!) transpose_results(false) %s, %s ~=> %s ~-> %s }" % (mac, a0, b0, f1, f2)
+        r = """'r: {
+    let a = %s;
+    let b = %s;
+    ev("j.x.a", &2usize);
+    let v = match b.and_then(%s) { Ok(v) => v, Err(e) => break 'r Err(e) };
+    let v = match (%s)(v) { Ok(v) => v, Err(e) => break 'r Err(e) };
+    match a { Ok(a) => Ok::<(i32, i32), i32>((a, v)), Err(e) => Err(e) }
+}""" % (a0, b0, f1, f2)
+        slots = [fp.slot(0, 0), fp.slot(1, 0), fp.slot(1, 1), fp.slot(1, 2)]
+        progs.append(Prog("%s/transpose13" % mac, "let x = %s;%s" % (r, fmt), "let x = %s;%s" % (d, fmt), [[0]], "Proj", meta={"macro": mac, "dsl": d, "ref": r}, sub=slots))
     return progs
 
 
